@@ -397,9 +397,48 @@ def extras(ctx, L):
         L.packet_free(p)
         if rc != CIF_OK:
             raise Mismatch('model:cif_loop_add_packet:0:%d:after-remove-all' % rc, 're-adding to the emptied loop -> %d' % rc)
+        # an iterator with a pending update survives refused requests made meanwhile: a second iterator (on another
+        # loop, on a loop without packets, through a stale handle) and a look at another loop's names
+        rc, le = L.create_loop(b, 'empty2', ['_q1'])
+        rc, lz = L.create_loop(b, 'z', ['_z1'])
+        rc, lz2 = L.get_item_loop(b, '_z1')
+        L.loop_destroy(lz2)
+        for fin in ('close', 'abort'):
+            rc, it = L.loop_get_packets(loops[1])
+            rc, pk = L.it_next(it, 'new')
+            v = L.make_value(('char', 'pending-' + fin, True))
+            L.packet_set(pk, '_y1', v)
+            L.value_free(v)
+            rc = L.it_update(it, pk)
+            L.packet_free(pk)
+            if rc != CIF_OK:
+                raise Mismatch('model:cif_pktitr_update_packet:0:%d:ITERATED' % rc, 'update -> %d' % rc)
+            for what, lh, okset in (('another loop', loops[0], (CIF_ERROR,)), ('a loop without packets', le, (CIF_ERROR, CIF_EMPTY_LOOP)),
+                                    ('a stale loop handle', lz, (CIF_ERROR, CIF_INVALID_HANDLE))):
+                rc, it2 = L.loop_get_packets(lh)
+                if rc == CIF_OK:
+                    L.it_close(it2)
+                    ctx.count('second_iterators_granted')
+                elif rc not in okset:
+                    raise Mismatch('model:cif_loop_get_packets:second-iterator:%d' % rc, 'request for an iterator on %s while one is open -> %d' % (what, rc))
+                if L.in_transaction(cif) != 1:
+                    raise Mismatch('autocommit:cif_loop_get_packets:enclosing-transaction-lost', 'a refused request for an iterator on %s ended the open iterator\'s transaction' % what)
+            rc, nm = L.loop_get_names(loops[0])
+            if rc != CIF_OK or L.in_transaction(cif) != 1:
+                raise Mismatch('autocommit:cif_loop_get_names:enclosing-transaction-lost', 'cif_loop_get_names on another loop while an iterator is open -> %d, transaction open: %d' % (rc, L.in_transaction(cif)))
+            rc1 = L.it_next(it, 'null')[0]
+            rc2 = L.it_close(it) if fin == 'close' else L.it_abort(it)
+            if (rc1, rc2) != (CIF_OK, CIF_OK):
+                raise Mismatch('model:cif_pktitr_%s:0:%d/%d:after-refused-requests' % (fin, rc1, rc2), 'after refused requests made meanwhile: next -> %d, %s -> %d' % (rc1, fin, rc2))
+            got = sorted(pk[0][1][1] for pk in D.dump_loop(L, loops[1])[2])
+            want = sorted(['pending-close', 'y1', 'y2']) if fin == 'close' else sorted(['pending-close', 'y1', 'y2'])
+            if got != want:
+                raise Mismatch('state:after-%s:content:after-refused-requests' % fin, 'loop holds %r, expected %r' % (got, want))
+        L.loop_free(le)
+        L.loop_free(lz)
         for l in loops:
             L.loop_free(l)
-        ctx.count('extra_cases', 4)
+        ctx.count('extra_cases', 6)
     finally:
         L.container_free(b)
         L.destroy(cif)
